@@ -170,13 +170,13 @@ def maxima():
                 if plen >= 0:
                     steps.append({"e": "publish", "qos": q, "topic": b("a"), "payload": [7] * plen})
                     steps += POLLS
-        # SUBSCRIBE: 2 + 2 + 1 + (2 + len + 1); UNSUBSCRIBE: 2 + 2 + 1 + (2 + len)
+        # SUBSCRIBE: 2 + 2 + 1 + (2 + len + 1) = 8 + len; UNSUBSCRIBE: 2 + 2 + 1 + (2 + len) = 7 + len
         for d in (-1, 0, 1):
-            tl = mp - 10 + d
+            tl = mp - 8 + d
             if tl >= 1:
                 steps.append({"e": "subscribe", "props": [], "filters": [{"topic": b("s" * tl), "qos": 1}]})
                 steps += POLLS
-            tl = mp - 9 + d
+            tl = mp - 7 + d
             if tl >= 1:
                 steps.append({"e": "unsubscribe", "props": [], "topics": [b("u" * tl)]})
                 steps += POLLS
